@@ -251,10 +251,15 @@ func (s *script) run(first []byte) (encrypted []byte) {
 	switch s.k.gaKind {
 	case 9:
 		a = big.NewInt(1) // g_a = g: the peer can finish the exchange consistently
-	case 10:
+	case 10, 11:
 		a = big.NewInt(int64(2 + s.tape.Choose(simrt.Fault, 60))) // g_a = g^a far below the safety bound, exponent known
 	}
 	ga := gaOf(s.k.gaKind, g, a, p)
+	if s.k.gaKind == 11 {
+		// g_a = -g^a mod p: above the upper safety bound, and the shared key is
+		// +-g_b^a, which the peer can still guess
+		ga = new(big.Int).Sub(p, new(big.Int).Exp(g, a, p))
+	}
 	if s.k.gaKind == 0 {
 		// an honest server keeps g_a inside the safety range
 		lo := new(big.Int).Lsh(big.NewInt(1), crypto.RSAKeyBits-64)
@@ -329,7 +334,11 @@ func (s *script) run(first []byte) (encrypted []byte) {
 	var authKey crypto.Key
 	if err == nil {
 		gb := new(big.Int).SetBytes(cin.GB)
-		new(big.Int).Exp(gb, a, p).FillBytes(authKey[:])
+		shared := new(big.Int).Exp(gb, a, p)
+		if s.k.gaKind == 11 && s.tape.Coin(simrt.Fault, 1, 2) {
+			shared.Sub(p, shared) // the other sign
+		}
+		shared.FillBytes(authKey[:])
 	} else {
 		// the peer without the private key cannot read g_b either: it answers blind
 		s.tape.Fill(simrt.Fault, authKey[:])
